@@ -27,8 +27,9 @@ class ToolError(Exception):
 
 def _limits(mem_gb):
     def f():
-        b = int(mem_gb * (1 << 30))
-        resource.setrlimit(resource.RLIMIT_AS, (b, b))
+        if mem_gb:      # 0 = no address-space limit (sanitizer builds reserve terabytes of virtual address space)
+            b = int(mem_gb * (1 << 30))
+            resource.setrlimit(resource.RLIMIT_AS, (b, b))
         os.setsid()
     return f
 
